@@ -5,7 +5,7 @@
 From stdpp Require Import gmap.
 From Coq Require Import NArith.
 From RV Require Import Base.Str Base.Utf8 Base.PathLex Path.Helpers Path.Expand Path.Abs Memfs.State Memfs.Ops Memfs.Walk Memfs.WalkOps Memfs.Step
-  Memfs.Wf Memfs.WfMore Memfs.WfMove Memfs.Spec Memfs.Refine Memfs.RefineMore Memfs.RefineChown Memfs.RefineMove Memfs.ContentFacts Memfs.Kinds Memfs.RemoveAll Memfs.LinkFacts
+  Memfs.Wf Memfs.WfMore Memfs.WfMove Memfs.Spec Memfs.Refine Memfs.RefineMore Memfs.RefineChown Memfs.RefineChmod Memfs.RefineMove Memfs.ContentFacts Memfs.Kinds Memfs.RemoveAll Memfs.LinkFacts
   Macros.Asserts.
 
 Definition resolve_t (env : envmap) (t : tree) (s : list N) : mres rpath :=
@@ -139,6 +139,29 @@ Definition spec_step (env : envmap) (t : tree) (o : op) : option (tree * result)
                               | None => Some (t, inr EDoesNotExist)
                               end
                    end
+  | ORoot => Some (t, inl (VPath (render_rpath [])))
+  | OChmod s o => if ch_follow o || negb (bool_decide (ch_sym o = [])) || N.eqb (ch_dirs o) 0 || N.eqb (ch_files o) 0 then None else
+                  match resolve_t env t s with
+                  | inr e => Some (t, inr e)
+                  | inl p => match t_nodes t !! p with
+                             | Some _ => Some (spec_chmod t p (ch_recursive o) (ch_dirs o) (ch_files o), inl VUnit)
+                             | None => Some (t, inr EDoesNotExist)
+                             end
+                  end
+  | OMkfileM s mode =>
+      (* mkfile, then chmod of the returned path as the code re-reads it; covered when that reading is the path itself *)
+      if N.eqb mode 0 then None else
+      match resolve_t env t s with
+      | inr e => Some (t, inr e)
+      | inl p => let '(t1, r) := spec_mkfile t p def_mode_file def_uid def_gid in
+                 match r with
+                 | inr e => Some (t1, inr e)
+                 | inl p' => match resolve_t env t1 (render_rpath p'), t_nodes t1 !! p' with
+                             | inl q, Some _ => if bool_decide (q = p') then Some (spec_chmod t1 p' true mode mode, inl (VPath (render_rpath p'))) else None
+                             | _, _ => None
+                             end
+                 end
+      end
   | _ => None
   end.
 
@@ -210,6 +233,7 @@ Proof.
   - (* uid *) injection Hs as <- <-. exists m. split; [|done]. f_equal. f_equal. by apply query_entry_node.
   - (* gid *) injection Hs as <- <-. exists m. split; [|done]. f_equal. f_equal. by apply query_entry_node.
   - (* cwd *) injection Hs as <- <-. by exists m.
+  - (* root *) injection Hs as <- <-. exists m. by rewrite (wf_rootpath m HW).
   - (* set_cwd *) injection Hs as Hs. rewrite <- resolve_abs in Hs. pose proof (set_cwd_refines env m s) as Hr. unfold set_cwd_op in *.
     destruct (resolve env m s) as [p|e] eqn:E; [|simplify_eq; by exists m]. specialize (Hr p HW HK eq_refl).
     destruct (match m_ents m !! p with Some x => _ | None => _ end) as [m1 r1]. destruct Hr as [Ha Hr1].
@@ -258,11 +282,31 @@ Proof.
     destruct (move_op env m s d) as [[m1 r1]| |] eqn:Em; [|done|done].
     destruct (move_refines env m s d m1 r1 HW Em) as [Ha Hr]. destruct (spec_move env (abs m) s d) as [t1 rr]. cbn [fst snd] in *. subst t1 rr.
     injection Hs as <- <-. exists m1. split; [|done]. by destruct r1.
+  - (* chmod *) destruct (ch_follow o) eqn:Hnf; [discriminate|]. destruct (bool_decide (ch_sym o = [])) eqn:Hsy; [|discriminate].
+    apply bool_decide_eq_true in Hsy. destruct (N.eqb (ch_dirs o) 0) eqn:Hd0; [discriminate|]. destruct (N.eqb (ch_files o) 0) eqn:Hf0; [discriminate|].
+    apply N.eqb_neq in Hd0, Hf0. cbn [orb negb] in Hs. rewrite <- resolve_abs in Hs.
+    destruct (resolve env m s) as [p|e] eqn:E; [|injection Hs as <- <-; exists m; unfold chmod_op; by rewrite E].
+    rewrite lookup_abs in Hs. destruct (m_ents m !! p) as [x|] eqn:Hx; cbn in Hs; injection Hs as <- <-.
+    + destruct (chmod_refines env m s o p x HW HK Hnf Hsy Hd0 Hf0 E Hx) as (m1 & -> & Ha). exists m1. done.
+    + exists m. unfold chmod_op. rewrite E. unfold walk. by rewrite Hx.
   - (* chown *) destruct (co_follow o) eqn:Hnf; [discriminate|]. rewrite <- resolve_abs in Hs.
     destruct (resolve env m s) as [p|e] eqn:E; [|injection Hs as <- <-; exists m; unfold chown_op; by rewrite E].
     rewrite lookup_abs in Hs. destruct (m_ents m !! p) as [x|] eqn:Hx; cbn in Hs; injection Hs as <- <-.
     + destruct (chown_refines env m s o p x HW Hnf E Hx) as (m1 & -> & Ha). exists m1. done.
     + exists m. unfold chown_op. rewrite E. unfold walk. by rewrite Hx.
+  - (* mkfile_m *) destruct (N.eqb mode 0) eqn:Hm0; [discriminate|]. apply N.eqb_neq in Hm0. rewrite <- resolve_abs in Hs.
+    destruct (resolve env m s) as [p|e] eqn:E; [|injection Hs as <- <-; by exists m].
+    pose proof (mkfile_refines m p HW HK) as Hr.
+    pose proof (wf_step env m (OMkfile s)) as HW1. pose proof (kinds_step env m (OMkfile s)) as HK1. cbn [step] in HW1, HK1. rewrite E in HW1, HK1.
+    destruct (add m (new_file p)) as [m1 r1]. destruct Hr as [Ha Hr1].
+    assert (HW1' : WF m1) by (destruct r1; exact (HW1 _ _ HW eq_refl)).
+    assert (HK1' : kinds_ok m1) by (destruct r1; exact (HK1 _ _ HW HK eq_refl)). clear HW1 HK1.
+    destruct (spec_mkfile (abs m) p def_mode_file def_uid def_gid) as [t1 rr]. cbn [fst snd] in *. subst t1 rr.
+    destruct r1 as [p'|e]; [|injection Hs as <- <-; by exists m1].
+    rewrite <- resolve_abs, lookup_abs in Hs. destruct (resolve env m1 (render_rpath p')) as [q|e] eqn:E1; [|done].
+    destruct (m_ents m1 !! p') as [x|] eqn:Hx; [|done]. cbn in Hs. case_bool_decide; [|done]. subst q. injection Hs as <- <-.
+    destruct (chmod_refines env m1 (render_rpath p') {| ch_dirs := mode; ch_files := mode; ch_follow := false; ch_recursive := true; ch_sym := [] |} p' x
+                HW1' HK1' eq_refl eq_refl Hm0 Hm0 E1 Hx) as (m2 & -> & Ha2). exists m2. done.
 Qed.
 
 (* a whole history *)
@@ -290,3 +334,18 @@ Qed.
 Corollary history_refines_init env os t rs : spec_run env (abs mfs_init) os = Some (t, rs) →
   ∃ m', run env mfs_init os = Done (m', rs) ∧ abs m' = t.
 Proof. intros H. destruct (history_refines env os mfs_init t rs wf_init kinds_init H) as (m' & ? & ? & _). eauto. Qed.
+
+(* the reference covers a history that uses most of its alphabet: the premise of the theorem is satisfiable *)
+Example history_refines_nonvacuous :
+  match spec_run (fun _ => None) (abs mfs_init)
+          [OMkdirP [47; 97; 47; 98]%N; OMkfileM [47; 97; 47; 98; 47; 102]%N 384%N; OWriteAll [47; 97; 47; 98; 47; 102]%N [1]%N;
+           OSymlink [47; 97; 47; 108]%N [47; 97; 47; 98]%N;
+           OChmod [47; 97]%N {| ch_dirs := 448; ch_files := 416; ch_follow := false; ch_recursive := true; ch_sym := [] |};
+           OChown [47; 97; 47; 98]%N {| co_uid := Some 5%N; co_gid := None; co_follow := false; co_recursive := true |};
+           OMoveP [47; 97; 47; 98]%N [47; 99]%N; OSetCwd [47; 99]%N; OReadAll [102]%N; OMode [102]%N; ORemoveAll [47; 97]%N; ORoot] with
+  | Some (t, rs) => (size (t_nodes t) =? 3) && (length rs =? 12) &&
+                    match nth 8 rs (inr EDoesNotExist) with inl (VBytes [1%N]) => true | _ => false end &&
+                    match nth 9 rs (inr EDoesNotExist) with inl (VNum v) => N.eqb v (N.lor 416 Gen.Consts.c_type_bits_file) | _ => false end
+  | None => false
+  end = true.
+Proof. vm_compute. reflexivity. Qed.
